@@ -403,10 +403,12 @@ func (b *Builder) structHash(t *types.Struct) (ret []byte, pkg string) {
 		}
 		name := f.Name()
 		if f.Embedded() {
-			name = "-"
+			// keep the field name: an embedded alias field is named after the alias
+			name = "-" + name
 		}
 		ft, _ := b.TypeName(f.Type())
-		fmt.Fprintln(h, name, ft)
+		// struct types with different tags are different types
+		fmt.Fprintln(h, name, ft, strconv.Quote(t.Tag(i)))
 	}
 	ret = h.Sum(b.buf[:0])
 	return
